@@ -6,7 +6,7 @@ C16 — any binary input ends in success or a diagnostic, never a crash.
 * `Props/C16Instr.lean`: instruction level - `readInstr` / `readInstrs` of every header layout are
   total, panic-free, fuel-sufficient and allocation-bounded for EVERY byte string.
 * `Props/C16Files.lean`: container level - the same for whole MSG, STD, mission MSG and old ECL
-  files (`*_read_no_panic`, `*_read_total`, `*_read_alloc_bound`), including the one reachable panic
-  of the old ECL reader (`ecl_read_panics_witness`) and the amplification of the STD / ECL offset
-  tables (`std_alloc_amplification`).
+  files (`*_read_no_panic`, `*_read_total`, `*_read_alloc_bound`), including the formerly panicking
+  input of the old ECL reader (`ecl_read_formerly_panicking_input`, repaired by 8c247ce) and the
+  amplification of the STD / ECL offset tables (`std_alloc_amplification`, open).
 -/
